@@ -6,6 +6,7 @@
 //!           k nothing | f fail | n clear the name | s namespace := "Hook//Ns/" | v version := "" | V version := "9%"
 //!           u subpath := "a/../b" | e insert ("zz","") | q insert ("Hk","Val") | m insert ("checksum","sha1:zz")
 //!           c insert ("checksum","B:00,a:FF") | N name := name + "X" | t stored type := stored type + "2"
+//!           b insert ("checksum","") (blank the checksum) | x remove every qualifier
 use std::borrow::Cow;
 use std::cell::RefCell;
 use std::str::FromStr;
@@ -82,6 +83,10 @@ impl PurlShape for Fam {
                 'c' => {
                     parts.qualifiers.insert("checksum", "B:00,a:FF").unwrap();
                 },
+                'b' => {
+                    parts.qualifiers.insert("checksum", "").unwrap();
+                },
+                'x' => parts.qualifiers.clear(),
                 'N' => parts.name.push('X'),
                 't' => self.ty.push('2'),
                 _ => panic!("bad hook letter"),
